@@ -72,7 +72,7 @@ partial def attempts (k : Kind) (buf : List Byte) (ts : List String) (o : Oracle
       pure (if k.isPacket then some [] else some buf, ts, o, needTag k buf :: tags)
   | .err c => do
       let ts ← expectTok ts s!"r={c}"
-      pure (none, ts, o, "hdr-magic-bad" :: tags)
+      pure (none, ts, o, (match k with | .R => "raw-unbalanced-err" | _ => "hdr-magic-bad") :: tags)
   | .throws => .error "model: an exception leaves onRecvData"
   | .frame t n =>
       match ts with
@@ -142,6 +142,16 @@ def feedOp (f : FState) (s : Nat) (segs : List (List Byte)) (impl : List String)
         let (c', o', tags) ← acceptSegs k c segs ts f.oracle []
         pure ({ f with streams := f.streams.set s (some (k, c')), oracle := o' }, tags)
     | _ => .error s!"expected a 'P feed' line, got {impl}"
+
+/-- a JSON integer literal: optional '-', digits, no leading zero, not "-0", at most 25 digits -/
+def jsonInt? (w : String) : Option Int :=
+  let neg := w.startsWith "-"
+  let ds := (if neg then (w.drop 1).toString else w).toList
+  if ds.isEmpty || ds.length > 25 || !ds.all Char.isDigit then none
+  else if ds.length > 1 && ds.head! == '0' then none
+  else
+    let v : Nat := ds.foldl (fun a c => a * 10 + (c.toNat - 48)) 0
+    if neg && v == 0 then none else some (if neg then -(v : Int) else (v : Int))
 
 def int32? (w : String) : Option Int := do
   let v ← intOfString? w
@@ -226,7 +236,8 @@ def rpcTags (r : Rpc) (op : Op) (evs : List REv) : List String :=
   (match op with
    | .request c => [if c then "req-chain" else "req"]
    | .notify => ["notify"]
-   | .response id _ => [if fired then "rsp-hit" else if (0 < id ∧ id ≤ (r.idAlloc : Int)) then "rsp-late-or-dup" else "rsp-unknown"]
+   | .response id _ => [if fired then "rsp-hit" else if (respIdG true id).isNone then "rsp-id-beyond-int"
+                         else if (0 < id ∧ id ≤ (r.idAlloc : Int)) then "rsp-late-or-dup" else "rsp-unknown"]
    | .tick => []) ++ (if chained then ["chained-request"] else [])
 
 def rpcOp (k : Kind) (r : Rpc) (ws : List String) (impl : String) :
@@ -242,7 +253,7 @@ def rpcOp (k : Kind) (r : Rpc) (ws : List String) (impl : String) :
       else none
   | ["note"] => let (r', evs) := step r .notify; some (finish r' evs ["notify"])
   | ["rsp", id, code] => do
-      let id ← int32? id; let code ← int32? code
+      let id ← jsonInt? id; let code ← int32? code
       let (r', evs) := step r (.response id code)
       some (finish r' evs (rpcTags r (.response id code) evs))
   | ["adv", ms] => do
